@@ -135,6 +135,10 @@ func (s *Heatmap) WriteHeader(colNames ...string) (colCount int) {
 
 		sb.WriteString(underlineHeaderChar(name, 0))
 		i += nameLen
+		if nameLen == 0 { // an empty key still takes up its own column (and the loop must advance)
+			sb.WriteRune(delim)
+			i++
+		}
 	}
 
 	if colCount < len(colNames) {
